@@ -30,9 +30,10 @@ def run(ctx):
     ctx.assumptions += [
         "producers (audit B26): pub_counts of one connection; the Go map c.pubCounts is one iteration order of an association list with "
         "distinct keys and every theorem of Props.C13Pub is stated for every order; uint64 counts read as Nat (no 2^64 wrap); the "
-        "unfiltered answer is complete only for the F49 loop shape (pub_counts_complete_fixed / pub_counts_full_fixed) — the loop with "
-        "the unconditional break is refuted (pub_counts_full_false_with_break) and replayed by TestVerifE2PubCounts "
-        "(finding stats-pubcounts-break while the tree has that shape)",
+        "unfiltered answer is complete on this tree (pub_counts_full_this_tree / pub_counts_complete_fixed: F49 = /repo 6fb5d96 is committed and "
+        "Tie.PubCounts.statsPubCounts_eq accepts ONLY its loop shape) — the loop with the unconditional break (the tree before F49) is refuted "
+        "(pub_counts_full_false_with_break) and replayed by TestVerifE2PubCounts on every run (finding stats-pubcounts-break, listed fixed: a "
+        "reproduction is a VIOLATION)",
     ]
     ctx.gen("e2_pubcounts")     # pub_counts loop of clientV2.Stats + PublishedMessage (Nsq.Tie.PubCounts)
     res, broken = e2.run_property(ctx, "C13", TIE, PROPS)
